@@ -21,7 +21,7 @@ func checkListerTable(c *Ctx) {
 		c.undecided(rule, "_lister.run/shape", pos, "no actor loop found")
 		return
 	}
-	w := &Walker{P: c.P}
+	w := &Walker{P: c.P, Inline: autoInline(c.P, fn, 12)}
 	paths := w.IterRegion(fn, loop)
 	isPhi := func(t *Term, n string) bool { return t != nil && t.K == "phi" && t.S == n }
 	isTicker := func(t *Term) bool {
@@ -305,7 +305,10 @@ func checkTickerTable(c *Ctx) {
 		c.undecided(rule, "_ticker.run/shape", pos, "no actor loop found")
 		return
 	}
-	w := &Walker{P: c.P}
+	w := &Walker{P: c.P, Inline: autoInline(c.P, fn, 12)}
+	if np := c.P.Func("", "_ticker.nextPeriod"); np != nil {
+		delete(w.Inline, np) // recognised by name; its body is checked by T-FLOW(period)
+	}
 	paths := w.IterRegion(fn, loop)
 	isPhi := func(t *Term, n string) bool { return t != nil && t.K == "phi" && t.S == n }
 	isPeriodCall := func(t *Term) bool { return t != nil && t.K == "call" && t.S == "_ticker.nextPeriod" }
@@ -434,7 +437,9 @@ func checkTickerTable(c *Ctx) {
 			case "timerFired":
 				return [][]string{{"timer.Stop", "nextch':=t.nextch"}, {"nextch':=t.nextch"}}
 			case "tickTaken":
-				return [][]string{{"timer.Reset(nextPeriod)", "nextch':=nil"}}
+				// stopping/draining the (already fired) timer before re-arming it is harmless
+				base := []string{"timer.Reset(nextPeriod)", "nextch':=nil"}
+				return [][]string{base, append(append([]string{}, base...), "timer.Stop"), append(append([]string{}, base...), "timer.Stop", "drain(timer.C)[nonblocking]")}
 			}
 			return nil
 		},
